@@ -192,8 +192,624 @@ example : encodeInt true 2 (-(2 : Nat) : Int) = some (leBytes 2 (256 ^ 2 - 2)) :
 /-- an Offset into node 2 (uuid = 16 bytes `02`) at displacement `0x0140` -/
 example : encode exNodeUuid (.leaf .offset) (.offset (.node 2) 0x0140) =
     some (List.replicate 16 2 ++ [0x40, 0x01, 0, 0, 0, 0, 0, 0]) := by decide
-/-- distinct values, distinct bytes (here: a node and a plain UUID that names no node) -/
-example : hasType exLookup exNodeUuid (.leaf .uuid) (.node 1) = true ∧
-    hasType exLookup exNodeUuid (.leaf .uuid) (.uuid (List.replicate 16 7)) = true := by decide
+/-- `C08_prefix_free` on a stream: `uint16_t 258` then the byte `09` cannot also be read as
+another `uint16_t` followed by something else -/
+example (v' : Val) (bs' r' : Bytes) (h' : hasType exLookup exNodeUuid (.leaf .u16) v' = true)
+    (e' : encode exNodeUuid (.leaf .u16) v' = some bs') (hs : [0x02, 0x01] ++ [0x09] = bs' ++ r') :
+    Val.int 258 = v' ∧ [0x02, 0x01] = bs' ∧ [0x09] = r' :=
+  C08_prefix_free exLookup exNodeUuid (.leaf .u16) (.int 258) v' [0x02, 0x01] bs' [0x09] r'
+    (by decide) h' (by decide) e' hs
+
+/-! ### (d) double entry: the format, declaratively
+
+Nothing below refers to `encode`, `encodeInt`, `leBytes`, `u64`, `Leaf.width` or `Leaf.signed`
+until the comparison theorems: little-endian is the positional relation `LE`, the integer
+widths are the table `intFmt`, two's complement is `IntLE`. -/
+
+/-- `LE w n bs`: `bs` is the `w`-byte little-endian representation of the unsigned number `n`
+("swapping their bytes to little-endian order and writing them directly to the byte array"):
+exactly `w` bytes, `n` fits, and byte `i` is the `i`-th base-256 digit of `n`. -/
+def LE (w n : Nat) (bs : Bytes) : Prop :=
+  bs.length = w ∧ n < 256 ^ w ∧ ∀ i, i < w → bs[i]? = some (UInt8.ofNat (n / 256 ^ i % 256))
+
+instance (w n : Nat) (bs : Bytes) : Decidable (LE w n bs) := by unfold LE; infer_instance
+
+/-- fixed-size integers of either signedness: `uintN_t` as is; `intN_t` in two's complement -/
+inductive IntLE : Bool → Nat → Int → Bytes → Prop
+  /-- unsigned: the number itself -/
+  | unsigned {w n bs} : LE w n bs → IntLE false w (n : Int) bs
+  /-- signed, not negative: the number itself, which must leave the top bit clear -/
+  | nonneg {w n bs} : 2 * n < 256 ^ w → LE w n bs → IntLE true w (n : Int) bs
+  /-- signed, negative: `2^(8w) - |n|` (two's complement), down to `-2^(8w-1)` -/
+  | neg {w n bs} : 0 < n → 2 * n ≤ 256 ^ w → LE w (256 ^ w - n) bs → IntLE true w (-(n : Int)) bs
+
+/-- the integer type names: signedness and `sizeof` (`Addr` is serialised as its `uint64_t`) -/
+def intFmt : Leaf → Option (Bool × Nat)
+  | .u8 => some (false, 1) | .u16 => some (false, 2) | .u32 => some (false, 4)
+  | .u64 => some (false, 8) | .addr => some (false, 8)
+  | .i8 => some (true, 1) | .i16 => some (true, 2) | .i32 => some (true, 4)
+  | .i64 => some (true, 8)
+  | _ => none
+
+mutual
+/-- THE WIRE FORMAT, one constructor per sentence of the reference (AuxData.hpp: "Serialization
+Format" and the `auxdata_traits` specialisations). `Wire nu t v bs`: `bs` is the serialisation
+of the value `v` at type `t` (`nu` gives the UUID of a node). -/
+inductive Wire (nu : Nat → Bytes) : Ty → Val → Bytes → Prop
+  /-- "Fixed-size types such as integers, Addr, etc are packed by swapping their bytes to
+  little-endian order and writing them directly to the byte array." -/
+  | int {l s w n bs} : intFmt l = some (s, w) → IntLE s w n bs → Wire nu (.leaf l) (.int n) bs
+  /-- `bool`: one byte, 1 for true ... -/
+  | boolTrue : Wire nu (.leaf .bool) (.bool true) [1]
+  /-- ... 0 for false -/
+  | boolFalse : Wire nu (.leaf .bool) (.bool false) [0]
+  /-- `float`: the 4 bytes of the IEEE-754 bit pattern, little-endian -/
+  | float {bits bs} : LE 4 bits bs → Wire nu (.leaf .f32) (.f32 bits) bs
+  /-- `double`: the 8 bytes of the IEEE-754 bit pattern, little-endian -/
+  | double {bits bs} : LE 8 bits bs → Wire nu (.leaf .f64) (.f64 bits) bs
+  /-- `string`: the number of bytes as `uint64_t`, then the (UTF-8) bytes -/
+  | string {s cnt} : LE 8 s.toUTF8.toList.length cnt →
+      Wire nu (.leaf .string) (.str s) (cnt ++ s.toUTF8.toList)
+  /-- `UUID`: its 16 bytes, as they are -/
+  | uuid {u} : u.length = 16 → Wire nu (.leaf .uuid) (.uuid u) u
+  /-- a node stands for its UUID -/
+  | node {id} : (nu id).length = 16 → Wire nu (.leaf .uuid) (.node id) (nu id)
+  /-- `Offset`: the `ElementId` as a UUID, then the `Displacement` as `uint64_t` -/
+  | offset {e d ub db} : Wire nu (.leaf .uuid) e ub → LE 8 d db →
+      Wire nu (.leaf .offset) (.offset e d) (ub ++ db)
+  /-- "Containers first write out the number of elements (as a uint64_t), then write each
+  element one after another." - sequences ... -/
+  | seq {t xs cnt body} : LE 8 xs.length cnt → WireMany nu t xs body →
+      Wire nu (.seq t) (.seq xs) (cnt ++ body)
+  /-- ... sets ... -/
+  | set {t xs cnt body} : LE 8 xs.length cnt → WireMany nu t xs body →
+      Wire nu (.set t) (.set xs) (cnt ++ body)
+  /-- ... and mappings, whose elements are pairs: the key, then the value -/
+  | map {kt vt ks vs cnt body} : LE 8 ks.length cnt → WirePairs nu kt vt ks vs body →
+      Wire nu (.map kt vt) (.map ks vs) (cnt ++ body)
+  /-- "Tuples are similar but omit the size, since it can be inferred from the type." -/
+  | tuple {ts xs bs} : WireFields nu ts xs bs → Wire nu (.tuple ts) (.tuple xs) bs
+  /-- `variant`: the index of the alternative as `uint64_t`, then the value at the type of
+  that alternative -/
+  | variant {ts i t v idx body} : LE 8 i idx → ts[i]? = some t → Wire nu t v body →
+      Wire nu (.variant ts) (.variant i v) (idx ++ body)
+/-- the elements of a sequence / set, one after another -/
+inductive WireMany (nu : Nat → Bytes) : Ty → List Val → Bytes → Prop
+  | nil {t} : WireMany nu t [] []
+  | cons {t x xs a b} : Wire nu t x a → WireMany nu t xs b → WireMany nu t (x :: xs) (a ++ b)
+/-- the pairs of a mapping, one after another: key, value -/
+inductive WirePairs (nu : Nat → Bytes) : Ty → Ty → List Val → List Val → Bytes → Prop
+  | nil {kt vt} : WirePairs nu kt vt [] [] []
+  | cons {kt vt k v ks vs a b c} : Wire nu kt k a → Wire nu vt v b → WirePairs nu kt vt ks vs c →
+      WirePairs nu kt vt (k :: ks) (v :: vs) (a ++ b ++ c)
+/-- the fields of a tuple, one after another, each at its own type -/
+inductive WireFields (nu : Nat → Bytes) : List Ty → List Val → Bytes → Prop
+  | nil : WireFields nu [] [] []
+  | cons {t ts x xs a b} : Wire nu t x a → WireFields nu ts xs b →
+      WireFields nu (t :: ts) (x :: xs) (a ++ b)
+end
+
+/-! #### the comparison -/
+
+theorem LE_iff (w n : Nat) (bs : Bytes) : LE w n bs ↔ n < 256 ^ w ∧ bs = leBytes w n := by
+  constructor
+  · rintro ⟨hl, hn, hg⟩
+    exact ⟨hn, eq_leBytes_of_get w n bs hl hg⟩
+  · rintro ⟨hn, rfl⟩
+    exact ⟨leBytes_length w n, hn, fun i hi => leBytes_get w n i hi⟩
+
+theorem LE_u64 (n : Nat) (bs : Bytes) : LE 8 n bs ↔ n < 2 ^ 64 ∧ bs = u64 n := by
+  rw [LE_iff]; rfl
+
+theorem encodeInt_natCast (s : Bool) (w n : Nat) (h : intInRange s w (n : Int) = true) :
+    encodeInt s w (n : Int) = some (leBytes w n) := by
+  have hP : ((256 : Int) ^ w) = ((256 ^ w : Nat) : Int) := by simp
+  have hlt : n < 256 ^ w := by
+    unfold intInRange at h
+    rw [hP] at h
+    generalize 256 ^ w = P at *
+    cases s <;> simp at h <;> omega
+  have e : ((n : Int) % (256 ^ w : Int)).toNat = n := by
+    rw [hP, ← Int.natCast_emod, Int.toNat_natCast, Nat.mod_eq_of_lt hlt]
+  simp [encodeInt, h, e]
+
+theorem encodeInt_iff_IntLE (s : Bool) (w : Nat) (n : Int) (bs : Bytes) (hw : 0 < w) :
+    encodeInt s w n = some bs ↔ IntLE s w n bs := by
+  obtain ⟨w', rfl⟩ : ∃ w', w = w' + 1 := ⟨w - 1, by omega⟩
+  have hP : ((256 : Int) ^ (w' + 1)) = ((256 ^ (w' + 1) : Nat) : Int) := by simp
+  have hP' : (256 : Nat) ^ (w' + 1) = 256 ^ w' * 256 := Nat.pow_succ _ _
+  constructor
+  · intro h
+    have hr : intInRange s (w' + 1) n = true := by
+      unfold encodeInt at h
+      split at h
+      · assumption
+      · cases h
+    by_cases hn : 0 ≤ n
+    · obtain ⟨m, rfl⟩ : ∃ m : Nat, n = m := ⟨n.toNat, by omega⟩
+      rw [encodeInt_natCast s _ m hr] at h
+      cases h
+      unfold intInRange at hr
+      rw [hP, hP'] at hr
+      cases s
+      · refine .unsigned ((LE_iff _ _ _).2 ⟨?_, rfl⟩)
+        rw [hP']; generalize 256 ^ w' = P at *
+        simp at hr; omega
+      · have : 2 * m < 256 ^ (w' + 1) := by
+          rw [hP']; generalize 256 ^ w' = P at *
+          simp at hr; omega
+        exact .nonneg this ((LE_iff _ _ _).2 ⟨by omega, rfl⟩)
+    · obtain ⟨m, rfl, hm⟩ : ∃ m : Nat, n = -(m : Int) ∧ 0 < m := ⟨n.natAbs, by omega, by omega⟩
+      have hs : s = true := by
+        cases s
+        · unfold intInRange at hr; simp at hr; omega
+        · rfl
+      subst hs
+      have h2 : 2 * m ≤ 256 ^ (w' + 1) := by
+        unfold intInRange at hr
+        rw [hP, hP'] at hr
+        rw [hP']; generalize 256 ^ w' = P at *
+        simp at hr; omega
+      rw [encodeInt_neg _ m hm h2] at h
+      cases h
+      exact .neg hm h2 ((LE_iff _ _ _).2 ⟨by have := Nat.pow_pos (n := w' + 1) (by decide : 0 < 256); omega, rfl⟩)
+  · intro h
+    cases h with
+    | unsigned hle =>
+      obtain ⟨hn, rfl⟩ := (LE_iff _ _ _).1 hle
+      apply encodeInt_natCast
+      unfold intInRange
+      rw [hP]
+      simp; omega
+    | nonneg h2 hle =>
+      obtain ⟨hn, rfl⟩ := (LE_iff _ _ _).1 hle
+      apply encodeInt_natCast
+      unfold intInRange
+      rw [hP, hP'] at *
+      generalize 256 ^ w' = P at *
+      simp; omega
+    | neg hm h2 hle =>
+      obtain ⟨hn, rfl⟩ := (LE_iff _ _ _).1 hle
+      exact encodeInt_neg _ _ hm h2
+theorem intFmt_eq (l : Leaf) :
+    intFmt l = if l.isInt then some (l.signed, l.width) else none := by
+  cases l <;> rfl
+
+theorem intFmt_pos {l : Leaf} {s : Bool} {w : Nat} (h : intFmt l = some (s, w)) :
+    l.isInt = true ∧ s = l.signed ∧ w = l.width ∧ 0 < w := by
+  cases l <;> simp [intFmt] at h <;> (obtain ⟨rfl, rfl⟩ := h; simp [Leaf.isInt, Leaf.signed, Leaf.width])
+
+/-! inversion of `encode` at each container head (the range of the count included) -/
+
+theorem encode_seq_iff (nu : Nat → Bytes) (t : Ty) (xs : List Val) (bs : Bytes) :
+    encode nu (.seq t) (.seq xs) = some bs ↔
+      ∃ body, encodeMany (encode nu t) xs = some body ∧ xs.length < 2 ^ 64 ∧
+        bs = u64 xs.length ++ body := by
+  simp only [encode]
+  constructor
+  · intro h
+    split at h
+    · rename_i body hb
+      split at h
+      · cases h; exact ⟨body, hb, by assumption, rfl⟩
+      · cases h
+    · cases h
+  · rintro ⟨body, hb, hl, rfl⟩
+    simp [hb, hl]
+
+theorem encode_set_iff (nu : Nat → Bytes) (t : Ty) (xs : List Val) (bs : Bytes) :
+    encode nu (.set t) (.set xs) = some bs ↔
+      ∃ body, encodeMany (encode nu t) xs = some body ∧ xs.length < 2 ^ 64 ∧
+        bs = u64 xs.length ++ body := by
+  simp only [encode]
+  constructor
+  · intro h
+    split at h
+    · rename_i body hb
+      split at h
+      · cases h; exact ⟨body, hb, by assumption, rfl⟩
+      · cases h
+    · cases h
+  · rintro ⟨body, hb, hl, rfl⟩
+    simp [hb, hl]
+
+theorem encode_map_iff (nu : Nat → Bytes) (kt vt : Ty) (ks vs : List Val) (bs : Bytes) :
+    encode nu (.map kt vt) (.map ks vs) = some bs ↔
+      ∃ body, encodeManyPairs (encode nu kt) (encode nu vt) ks vs = some body ∧
+        ks.length < 2 ^ 64 ∧ bs = u64 ks.length ++ body := by
+  simp only [encode]
+  constructor
+  · intro h
+    split at h
+    · rename_i body hb
+      split at h
+      · cases h; exact ⟨body, hb, by assumption, rfl⟩
+      · cases h
+    · cases h
+  · rintro ⟨body, hb, hl, rfl⟩
+    simp [hb, hl]
+
+theorem encode_variant_iff (nu : Nat → Bytes) (ts : List Ty) (i : Nat) (v : Val) (bs : Bytes) :
+    encode nu (.variant ts) (.variant i v) = some bs ↔
+      ∃ body, encodeNth nu ts i v = some body ∧ i < 2 ^ 64 ∧ bs = u64 i ++ body := by
+  simp only [encode]
+  constructor
+  · intro h
+    split at h
+    · rename_i body hb
+      split at h
+      · cases h; exact ⟨body, hb, by assumption, rfl⟩
+      · cases h
+    · cases h
+  · rintro ⟨body, hb, hl, rfl⟩
+    simp [hb, hl]
+
+section
+variable (nu : Nat → Bytes)
+
+/-! `encode` produces only what the format allows ... -/
+
+theorem encodeElem_Wire (e : Val) (u : Bytes) (h : encodeElem nu e = some u) :
+    Wire nu (.leaf .uuid) e u := by
+  cases e <;> simp only [encodeElem] at h <;> first | cases h | skip
+  all_goals
+    split at h
+    · cases h
+      first | exact .uuid (by assumption) | exact .node (by assumption)
+    · cases h
+
+theorem encodeLeaf_Wire (l : Leaf) (v : Val) (bs : Bytes) (h : encodeLeaf nu l v = some bs) :
+    Wire nu (.leaf l) v bs := by
+  cases v with
+  | int n =>
+    have h' : l.isInt = true ∧ encodeInt l.signed l.width n = some bs := by
+      cases l <;> simp [encodeLeaf, Leaf.isInt, encodeElem] at h ⊢ <;> exact h
+    have hf : intFmt l = some (l.signed, l.width) := by rw [intFmt_eq, h'.1]; rfl
+    exact .int hf ((encodeInt_iff_IntLE _ _ _ _ (Leaf.width_pos_of_isInt l h'.1)).1 h'.2)
+  | bool b =>
+    cases l <;> simp [encodeLeaf, encodeElem] at h
+    subst h
+    cases b
+    · exact .boolFalse
+    · exact .boolTrue
+  | f32 bits =>
+    cases l <;> simp [encodeLeaf, encodeElem] at h
+    obtain ⟨hb, rfl⟩ := h
+    exact .float ((LE_iff _ _ _).2 ⟨by simpa using hb, rfl⟩)
+  | f64 bits =>
+    cases l <;> simp [encodeLeaf, encodeElem] at h
+    obtain ⟨hb, rfl⟩ := h
+    exact .double ((LE_iff _ _ _).2 ⟨by simpa using hb, rfl⟩)
+  | str s =>
+    cases l <;> simp [encodeLeaf, encodeElem] at h
+    obtain ⟨hb, rfl⟩ := h
+    exact .string ((LE_u64 _ _).2 ⟨hb, rfl⟩)
+  | uuid u =>
+    cases l <;> simp only [encodeLeaf] at h <;> first | cases h | skip
+    exact encodeElem_Wire nu _ _ h
+  | node id =>
+    cases l <;> simp only [encodeLeaf] at h <;> first | cases h | skip
+    exact encodeElem_Wire nu _ _ h
+  | offset e d =>
+    cases l <;> simp only [encodeLeaf, encodeElem] at h <;> first | cases h | skip
+    split at h
+    · rename_i u hu
+      split at h
+      · cases h
+        exact .offset (encodeElem_Wire nu _ _ hu) ((LE_u64 _ _).2 ⟨by assumption, rfl⟩)
+      · cases h
+    · cases h
+  | seq xs => cases l <;> simp [encodeLeaf, encodeElem] at h
+  | set xs => cases l <;> simp [encodeLeaf, encodeElem] at h
+  | map ks vs => cases l <;> simp [encodeLeaf, encodeElem] at h
+  | tuple xs => cases l <;> simp [encodeLeaf, encodeElem] at h
+  | variant i v => cases l <;> simp [encodeLeaf, encodeElem] at h
+
+theorem encodeMany_Wire (t : Ty) (ih : ∀ x a, encode nu t x = some a → Wire nu t x a) :
+    ∀ (xs : List Val) (body : Bytes), encodeMany (encode nu t) xs = some body →
+      WireMany nu t xs body
+  | [], body, h => by
+    simp only [encodeMany] at h; cases h; exact .nil
+  | x :: xs, body, h => by
+    obtain ⟨a, b, ha, hb, rfl⟩ := (C08_many_cons _ x xs body).1 h
+    exact .cons (ih x a ha) (encodeMany_Wire t ih xs b hb)
+
+theorem encodeManyPairs_Wire (kt vt : Ty) (ihk : ∀ x a, encode nu kt x = some a → Wire nu kt x a)
+    (ihv : ∀ x a, encode nu vt x = some a → Wire nu vt x a) :
+    ∀ (ks vs : List Val) (body : Bytes),
+      encodeManyPairs (encode nu kt) (encode nu vt) ks vs = some body →
+      WirePairs nu kt vt ks vs body
+  | [], [], body, h => by
+    simp only [encodeManyPairs] at h; cases h; exact .nil
+  | [], _ :: _, body, h => by simp [encodeManyPairs] at h
+  | _ :: _, [], body, h => by simp [encodeManyPairs] at h
+  | k :: ks, v :: vs, body, h => by
+    obtain ⟨a, b, c, ha, hb, hc, rfl⟩ := (C08_manyPairs_cons _ _ k v ks vs body).1 h
+    exact .cons (ihk k a ha) (ihv v b hb) (encodeManyPairs_Wire kt vt ihk ihv ks vs c hc)
+
+mutual
+theorem encode_Wire : ∀ (t : Ty) (v : Val) (bs : Bytes), encode nu t v = some bs → Wire nu t v bs
+  | .leaf l, v, bs, h => encodeLeaf_Wire nu l v bs (by simpa only [encode] using h)
+  | .seq t, v, bs, h => by
+    cases v with
+    | seq xs =>
+      obtain ⟨body, hb, hl, rfl⟩ := (encode_seq_iff nu t xs bs).1 h
+      exact .seq ((LE_u64 _ _).2 ⟨hl, rfl⟩)
+        (encodeMany_Wire nu t (fun x a hx => encode_Wire t x a hx) xs body hb)
+    | _ => simp [encode] at h
+  | .set t, v, bs, h => by
+    cases v with
+    | set xs =>
+      obtain ⟨body, hb, hl, rfl⟩ := (encode_set_iff nu t xs bs).1 h
+      exact .set ((LE_u64 _ _).2 ⟨hl, rfl⟩)
+        (encodeMany_Wire nu t (fun x a hx => encode_Wire t x a hx) xs body hb)
+    | _ => simp [encode] at h
+  | .map kt vt, v, bs, h => by
+    cases v with
+    | map ks vs =>
+      obtain ⟨body, hb, hl, rfl⟩ := (encode_map_iff nu kt vt ks vs bs).1 h
+      exact .map ((LE_u64 _ _).2 ⟨hl, rfl⟩)
+        (encodeManyPairs_Wire nu kt vt (fun x a hx => encode_Wire kt x a hx)
+          (fun x a hx => encode_Wire vt x a hx) ks vs body hb)
+    | _ => simp [encode] at h
+  | .tuple ts, v, bs, h => by
+    cases v with
+    | tuple xs => exact .tuple (encodeTuple_Wire ts xs bs (by simpa only [encode] using h))
+    | _ => simp [encode] at h
+  | .variant ts, v, bs, h => by
+    cases v with
+    | variant i x =>
+      obtain ⟨body, hb, hl, rfl⟩ := (encode_variant_iff nu ts i x bs).1 h
+      obtain ⟨t, ht, hw⟩ := encodeNth_Wire ts i x body hb
+      exact .variant ((LE_u64 _ _).2 ⟨hl, rfl⟩) ht hw
+    | _ => simp [encode] at h
+  | .unknown _ _, v, bs, h => by cases v <;> simp [encode] at h
+  | .badArity _ _, v, bs, h => by cases v <;> simp [encode] at h
+theorem encodeTuple_Wire : ∀ (ts : List Ty) (xs : List Val) (bs : Bytes),
+    encodeTuple nu ts xs = some bs → WireFields nu ts xs bs
+  | [], [], bs, h => by
+    simp only [encodeTuple] at h; cases h; exact .nil
+  | [], _ :: _, bs, h => by simp [encodeTuple] at h
+  | _ :: _, [], bs, h => by simp [encodeTuple] at h
+  | t :: ts, x :: xs, bs, h => by
+    simp only [encodeTuple] at h
+    split at h
+    · rename_i a b ha hb
+      cases h
+      exact .cons (encode_Wire t x a ha) (encodeTuple_Wire ts xs b hb)
+    · cases h
+theorem encodeNth_Wire : ∀ (ts : List Ty) (i : Nat) (v : Val) (bs : Bytes),
+    encodeNth nu ts i v = some bs → ∃ t, ts[i]? = some t ∧ Wire nu t v bs
+  | [], i, v, bs, h => by simp [encodeNth] at h
+  | t :: _, 0, v, bs, h => ⟨t, rfl, encode_Wire t v bs (by simpa only [encodeNth] using h)⟩
+  | _ :: ts, i + 1, v, bs, h => by
+    obtain ⟨t, ht, hw⟩ := encodeNth_Wire ts i v bs (by simpa only [encodeNth] using h)
+    exact ⟨t, by simpa using ht, hw⟩
+end
+
+/-! ... and everything the format allows -/
+
+theorem Wire_encodeElem (e : Val) (u : Bytes) (h : Wire nu (.leaf .uuid) e u) :
+    encodeElem nu e = some u ∧ u.length = 16 := by
+  cases h with
+  | int hf _ => simp [intFmt] at hf
+  | uuid hl => simp [encodeElem, hl]
+  | node hl => simp [encodeElem, hl]
+
+theorem Wire_encodeLeaf (l : Leaf) (v : Val) (bs : Bytes) (h : Wire nu (.leaf l) v bs) :
+    encodeLeaf nu l v = some bs := by
+  cases h with
+  | int hf hi =>
+    obtain ⟨hl, rfl, rfl, hw⟩ := intFmt_pos hf
+    rw [encodeLeaf_int nu l _ hl]
+    exact (encodeInt_iff_IntLE _ _ _ _ hw).2 hi
+  | boolTrue => rfl
+  | boolFalse => rfl
+  | float hle =>
+    obtain ⟨hn, rfl⟩ := (LE_iff _ _ _).1 hle
+    simp only [encodeLeaf]
+    rw [if_pos (by simpa using hn)]
+  | double hle =>
+    obtain ⟨hn, rfl⟩ := (LE_iff _ _ _).1 hle
+    simp only [encodeLeaf]
+    rw [if_pos (by simpa using hn)]
+  | string hle =>
+    obtain ⟨hn, rfl⟩ := (LE_u64 _ _).1 hle
+    simp only [encodeLeaf]
+    rw [if_pos hn]
+  | uuid hl => simp [encodeLeaf, encodeElem, hl]
+  | node hl => simp [encodeLeaf, encodeElem, hl]
+  | offset he hle =>
+    obtain ⟨hn, rfl⟩ := (LE_u64 _ _).1 hle
+    obtain ⟨hu, _⟩ := Wire_encodeElem nu _ _ he
+    simp [encodeLeaf, hu, hn]
+
+theorem WireMany_encode (t : Ty) (ih : ∀ x a, Wire nu t x a → encode nu t x = some a) :
+    ∀ (xs : List Val) (body : Bytes), WireMany nu t xs body →
+      encodeMany (encode nu t) xs = some body
+  | [], body, h => by cases h; rfl
+  | x :: xs, body, h => by
+    cases h with
+    | cons hx hxs => simp [encodeMany, ih _ _ hx, WireMany_encode t ih xs _ hxs]
+
+theorem WirePairs_encode (kt vt : Ty) (ihk : ∀ x a, Wire nu kt x a → encode nu kt x = some a)
+    (ihv : ∀ x a, Wire nu vt x a → encode nu vt x = some a) :
+    ∀ (ks vs : List Val) (body : Bytes), WirePairs nu kt vt ks vs body →
+      encodeManyPairs (encode nu kt) (encode nu vt) ks vs = some body
+  | [], vs, body, h => by cases h; rfl
+  | k :: ks, vs, body, h => by
+    cases h with
+    | cons hk hv hr =>
+      simp [encodeManyPairs, ihk _ _ hk, ihv _ _ hv, WirePairs_encode kt vt ihk ihv ks _ _ hr]
+
+mutual
+theorem Wire_encode : ∀ (t : Ty) (v : Val) (bs : Bytes), Wire nu t v bs → encode nu t v = some bs
+  | .leaf l, v, bs, h => by rw [encode]; exact Wire_encodeLeaf nu l v bs h
+  | .seq t, v, bs, h => by
+    cases h with
+    | seq hle hm =>
+      obtain ⟨hn, rfl⟩ := (LE_u64 _ _).1 hle
+      exact (encode_seq_iff nu t _ _).2
+        ⟨_, WireMany_encode nu t (fun x a hx => Wire_encode t x a hx) _ _ hm, hn, rfl⟩
+  | .set t, v, bs, h => by
+    cases h with
+    | set hle hm =>
+      obtain ⟨hn, rfl⟩ := (LE_u64 _ _).1 hle
+      exact (encode_set_iff nu t _ _).2
+        ⟨_, WireMany_encode nu t (fun x a hx => Wire_encode t x a hx) _ _ hm, hn, rfl⟩
+  | .map kt vt, v, bs, h => by
+    cases h with
+    | map hle hm =>
+      obtain ⟨hn, rfl⟩ := (LE_u64 _ _).1 hle
+      exact (encode_map_iff nu kt vt _ _ _).2
+        ⟨_, WirePairs_encode nu kt vt (fun x a hx => Wire_encode kt x a hx)
+          (fun x a hx => Wire_encode vt x a hx) _ _ _ hm, hn, rfl⟩
+  | .tuple ts, v, bs, h => by
+    cases h with
+    | tuple hf => rw [encode]; exact WireFields_encode ts _ _ hf
+  | .variant ts, v, bs, h => by
+    cases h with
+    | variant hle ht hw =>
+      obtain ⟨hn, rfl⟩ := (LE_u64 _ _).1 hle
+      exact (encode_variant_iff nu ts _ _ _).2 ⟨_, WireNth_encode ts _ _ _ _ ht hw, hn, rfl⟩
+  | .unknown _ _, v, bs, h => by cases h
+  | .badArity _ _, v, bs, h => by cases h
+theorem WireFields_encode : ∀ (ts : List Ty) (xs : List Val) (bs : Bytes),
+    WireFields nu ts xs bs → encodeTuple nu ts xs = some bs
+  | [], xs, bs, h => by cases h; rfl
+  | t :: ts, xs, bs, h => by
+    cases h with
+    | cons hx hr => simp [encodeTuple, Wire_encode t _ _ hx, WireFields_encode ts _ _ hr]
+theorem WireNth_encode : ∀ (ts : List Ty) (i : Nat) (t : Ty) (v : Val) (bs : Bytes),
+    ts[i]? = some t → Wire nu t v bs → encodeNth nu ts i v = some bs
+  | [], i, t, v, bs, ht, _ => by simp at ht
+  | t' :: _, 0, t, v, bs, ht, hw => by
+    simp only [List.getElem?_cons_zero, Option.some.injEq] at ht
+    subst ht
+    rw [encodeNth]; exact Wire_encode t' v bs hw
+  | _ :: ts, i + 1, t, v, bs, ht, hw => by
+    rw [encodeNth]
+    exact WireNth_encode ts i t v bs (by simpa using ht) hw
+end
+
+end
+
+/-- DOUBLE ENTRY: the model's encoder and the declarative format are the same relation -
+for every type, value and byte string, with no typing hypothesis (the ranges of integers,
+counts and indices and the 16 bytes of a UUID are premises of `Wire`'s constructors). -/
+theorem encode_iff_Wire (nu : Nat → Bytes) (t : Ty) (v : Val) (bs : Bytes) :
+    encode nu t v = some bs ↔ Wire nu t v bs :=
+  ⟨encode_Wire nu t v bs, Wire_encode nu t v bs⟩
+
+/-- functional: a value has at most one serialisation -/
+theorem Wire_functional (nu : Nat → Bytes) (t : Ty) (v : Val) (bs bs' : Bytes)
+    (h : Wire nu t v bs) (h' : Wire nu t v bs') : bs = bs' := by
+  have e := (encode_iff_Wire nu t v bs).2 h
+  have e' := (encode_iff_Wire nu t v bs').2 h'
+  rw [e] at e'; exact Option.some.inj e'
+
+/-- `C08_foreign_bytes` with content: whatever bytes an independent producer emits for a typed
+value, IF they follow the format as the reference states it (`Wire`), the decoder reads the
+value back from them, whatever follows. (`C08_foreign_bytes` said this of `encode`'s own
+output only.) -/
+theorem C08_foreign_bytes_Wire (lookup : Bytes → Option Nat) (nu : Nat → Bytes) (t : Ty) (v : Val)
+    (bs : Bytes) (h : hasType lookup nu t v = true) (hw : Wire nu t v bs) :
+    ∀ rest, decode lookup t (bs ++ rest) = .ok (v, rest) := by
+  obtain ⟨b, hb, hd⟩ := C07_roundtrip lookup nu t v h
+  rw [(encode_iff_Wire nu t v bs).2 hw] at hb
+  cases hb
+  exact hd
+
+/-- every value of a type has a serialisation in the format -/
+theorem Wire_total (lookup : Bytes → Option Nat) (nu : Nat → Bytes) (t : Ty) (v : Val)
+    (h : hasType lookup nu t v = true) : ∃ bs, Wire nu t v bs := by
+  obtain ⟨b, hb, _⟩ := C07_roundtrip lookup nu t v h
+  exact ⟨b, (encode_iff_Wire nu t v b).1 hb⟩
+
+/-! #### non-vacuity: concrete values and their exact bytes, by the rules of `Wire` alone -/
+
+section WireExamples
+
+/-- `Wire.string` with the UTF-8 bytes spelled out -/
+theorem Wire.string' {nu : Nat → Bytes} {s : String} {cnt payload : Bytes}
+    (hp : s.toUTF8.toList = payload) (hc : LE 8 payload.length cnt) :
+    Wire nu (.leaf .string) (.str s) (cnt ++ payload) := by
+  subst hp; exact .string hc
+
+/-- `mapping<string,sequence<tuple<UUID,int16_t>>>`: `{"hé": [(node 1, -2), (UUID 07.., 258)]}` -/
+example : Wire exNodeUuid
+    (.map (.leaf .string) (.seq (.tuple [.leaf .uuid, .leaf .i16])))
+    (.map [.str "hé"]
+      [.seq [.tuple [.node 1, .int (-2)], .tuple [.uuid (List.replicate 16 7), .int 258]]])
+    ([1, 0, 0, 0, 0, 0, 0, 0] ++                       -- one pair
+      (([3, 0, 0, 0, 0, 0, 0, 0] ++ [0x68, 0xc3, 0xa9]) ++   -- key: 3 bytes of UTF-8
+       ([2, 0, 0, 0, 0, 0, 0, 0] ++                     -- value: two elements
+         ((List.replicate 16 1 ++ ([0xfe, 0xff] ++ [])) ++      -- node 1's uuid, -2
+          ((List.replicate 16 7 ++ ([0x02, 0x01] ++ [])) ++ []))) ++ [])) :=   -- the UUID, 258
+  .map (by decide)
+    (.cons (.string' (by decide +kernel) (by decide))
+      (.seq (by decide)
+        (.cons (.tuple (.cons (.node (by decide))
+            (.cons (.int (s := true) (w := 2) rfl (.neg (n := 2) (by decide) (by decide) (by decide)))
+              .nil)))
+          (.cons (.tuple (.cons (.uuid (by decide))
+              (.cons (.int (s := true) (w := 2) rfl (.nonneg (n := 258) (by decide) (by decide)))
+                .nil)))
+            .nil)))
+      .nil)
+
+/-- the same bytes, flat -/
+example : ([1, 0, 0, 0, 0, 0, 0, 0] ++
+      (([3, 0, 0, 0, 0, 0, 0, 0] ++ [0x68, 0xc3, 0xa9]) ++
+       ([2, 0, 0, 0, 0, 0, 0, 0] ++
+         ((List.replicate 16 1 ++ ([0xfe, 0xff] ++ [])) ++
+          ((List.replicate 16 7 ++ ([0x02, 0x01] ++ [])) ++ []))) ++ []) : Bytes) =
+    [1, 0, 0, 0, 0, 0, 0, 0, 3, 0, 0, 0, 0, 0, 0, 0, 0x68, 0xc3, 0xa9, 2, 0, 0, 0, 0, 0, 0, 0,
+     1, 1, 1, 1, 1, 1, 1, 1, 1, 1, 1, 1, 1, 1, 1, 1, 0xfe, 0xff,
+     7, 7, 7, 7, 7, 7, 7, 7, 7, 7, 7, 7, 7, 7, 7, 7, 0x02, 0x01] := by decide
+
+/-- `variant<bool,tuple<double,Addr>>`, alternative 1: `(1.0, 0x1000)` -/
+example : Wire exNodeUuid
+    (.variant [.leaf .bool, .tuple [.leaf .f64, .leaf .addr]])
+    (.variant 1 (.tuple [.f64 0x3ff0000000000000, .int 4096]))
+    ([1, 0, 0, 0, 0, 0, 0, 0] ++
+      ([0, 0, 0, 0, 0, 0, 0xf0, 0x3f] ++ ([0, 0x10, 0, 0, 0, 0, 0, 0] ++ []))) :=
+  .variant (t := .tuple [.leaf .f64, .leaf .addr]) (by decide) rfl
+    (.tuple (.cons (.double (by decide))
+      (.cons (.int (s := false) (w := 8) rfl (.unsigned (n := 4096) (by decide))) .nil)))
+
+/-- `set<Offset>`: an offset into node 2 at 0x140 and one into a non-node UUID at 0 -/
+example : Wire exNodeUuid (.set (.leaf .offset))
+    (.set [.offset (.node 2) 0x140, .offset (.uuid (List.replicate 16 9)) 0])
+    ([2, 0, 0, 0, 0, 0, 0, 0] ++
+      ((List.replicate 16 2 ++ [0x40, 0x01, 0, 0, 0, 0, 0, 0]) ++
+       ((List.replicate 16 9 ++ [0, 0, 0, 0, 0, 0, 0, 0]) ++ []))) :=
+  .set (by decide)
+    (.cons (.offset (.node (by decide)) (by decide))
+      (.cons (.offset (.uuid (by decide)) (by decide)) .nil))
+
+/-- and `encode` produces exactly these bytes (an instance of `encode_iff_Wire`) -/
+example : encode exNodeUuid (.set (.leaf .offset))
+    (.set [.offset (.node 2) 0x140, .offset (.uuid (List.replicate 16 9)) 0]) =
+    some ([2, 0, 0, 0, 0, 0, 0, 0] ++
+      ((List.replicate 16 2 ++ [0x40, 0x01, 0, 0, 0, 0, 0, 0]) ++
+       ((List.replicate 16 9 ++ [0, 0, 0, 0, 0, 0, 0, 0]) ++ []))) := by decide
+
+/-- `Wire` is not trivially true: big-endian bytes, an out-of-range value, a wrong count
+and a 15-byte UUID are not in the format -/
+example : ¬ Wire exNodeUuid (.leaf .u16) (.int 258) [0x01, 0x02] :=
+  fun h => absurd ((encode_iff_Wire _ _ _ _).2 h) (by decide)
+example : ∀ bs, ¬ Wire exNodeUuid (.leaf .u8) (.int 256) bs := fun bs h => by
+  have e : encode exNodeUuid (.leaf .u8) (.int 256) = none := by decide
+  rw [(encode_iff_Wire _ _ _ _).2 h] at e; cases e
+example : ¬ Wire exNodeUuid (.seq (.leaf .u8)) (.seq [.int 1]) ([2, 0, 0, 0, 0, 0, 0, 0] ++ [1]) :=
+  fun h => absurd ((encode_iff_Wire _ _ _ _).2 h) (by decide)
+example : ∀ bs, ¬ Wire exNodeUuid (.leaf .uuid) (.uuid (List.replicate 15 7)) bs := fun bs h => by
+  have e : encode exNodeUuid (.leaf .uuid) (.uuid (List.replicate 15 7)) = none := by decide
+  rw [(encode_iff_Wire _ _ _ _).2 h] at e; cases e
+/-- ... directly from the definition: a little-endian relation that a big-endian string fails -/
+example : LE 2 258 [0x02, 0x01] ∧ ¬ LE 2 258 [0x01, 0x02] := by decide
+
+end WireExamples
 
 end Gtirb.Codec
